@@ -5,18 +5,25 @@
 //!   * `SendCommand::new(addr, value, false)`               (ad hoc, not overwritable)
 //!   * `HandlerContext::create_commander` + `Commander::send`        (registered, overwritable)
 //!   * `HandlerContext::create_commander` + `Commander::send_queued` (registered, not overwritable)
+//!   * a commander that is created once and *kept* (`Held` / `HeldQueued`): either in `on_start`
+//!     (`CShared::start_cmdrs`, in the given order) or by the first run-time send to that target; later
+//!     sends reuse the stored `Commander` without registering again, so the id -> address binding made at
+//!     creation time has to survive commanders created later for other addresses (in both phases).
 //! Every send is recorded (with the global sequence number) immediately before it is executed.
 
 use parking_lot::Mutex;
 use serde::{Deserialize, Serialize};
+use std::collections::HashMap;
 use std::sync::atomic::{AtomicU64, Ordering};
 use std::sync::Arc;
 use swimos::agent::agent_lifecycle::HandlerContext;
 use swimos::agent::agent_model::AgentModel;
-use swimos::agent::event_handler::{EventHandler, HandlerActionExt, Sequentially};
+use swimos::agent::event_handler::{
+    ActionContext, EventHandler, HandlerAction, HandlerActionExt, Sequentially, StepResult,
+};
 use swimos::agent::lanes::CommandLane;
 use swimos::agent::{lifecycle, projections, AgentLaneModel};
-use swimos_agent::commander::Commander;
+use swimos_agent::commander::{Commander, SendCommandById};
 use swimos_agent::event_handler::SendCommand;
 use swimos_api::address::Address;
 
@@ -52,18 +59,23 @@ pub enum Api {
     AdHocQueued,
     Cmdr,
     CmdrQueued,
+    Held,
+    HeldQueued,
 }
 
 impl Api {
     pub fn overwritable(&self) -> bool {
-        matches!(self, Api::AdHoc | Api::Cmdr)
+        matches!(self, Api::AdHoc | Api::Cmdr | Api::Held)
     }
+    /// Even indices are overwritable, odd ones are not.
     pub fn from_index(i: u8) -> Api {
-        match i % 4 {
+        match i % 6 {
             0 => Api::AdHoc,
             1 => Api::AdHocQueued,
             2 => Api::Cmdr,
-            _ => Api::CmdrQueued,
+            3 => Api::CmdrQueued,
+            4 => Api::Held,
+            _ => Api::HeldQueued,
         }
     }
 }
@@ -87,14 +99,25 @@ pub struct CShared {
     pub clock: Arc<AtomicU64>,
     pub trace: Mutex<Vec<(u64, CEv)>>,
     pub programs: Vec<Vec<CAct>>,
+    /// Targets for which `on_start` creates (and keeps) a commander, in this order; with
+    /// `Some(v)` it also sends `v` (not overwritable) through the new commander at once.
+    pub start_cmdrs: Vec<(usize, Option<i64>)>,
+    /// The kept commanders, by target.
+    pub held: Mutex<HashMap<usize, Commander<CmdAgent>>>,
 }
 
 impl CShared {
-    pub fn new(clock: Arc<AtomicU64>, programs: Vec<Vec<CAct>>) -> Arc<CShared> {
+    pub fn new(
+        clock: Arc<AtomicU64>,
+        programs: Vec<Vec<CAct>>,
+        start_cmdrs: Vec<(usize, Option<i64>)>,
+    ) -> Arc<CShared> {
         Arc::new(CShared {
             clock,
             trace: Mutex::new(vec![]),
             programs,
+            start_cmdrs,
+            held: Mutex::new(HashMap::new()),
         })
     }
     fn rec(&self, ev: CEv) {
@@ -120,6 +143,7 @@ fn act_handler(
 ) -> Box<dyn EventHandler<CmdAgent> + Send + 'static> {
     let CAct { t, v, api } = act;
     let (host, node, lane) = TARGETS[t];
+    let sh_held = sh.clone();
     let record = context.effect(move || {
         sh.rec(CEv::Sent {
             t,
@@ -148,11 +172,99 @@ fn act_handler(
                     .and_then(move |c: Commander<CmdAgent>| c.send_queued(v)),
             ),
         ),
+        Api::Held | Api::HeldQueued => Box::new(record.followed_by(HeldSend {
+            sh: sh_held,
+            t,
+            v,
+            queued: api == Api::HeldQueued,
+            inner: None,
+        })),
+    }
+}
+
+/// Send through the commander kept for the target; the first such send creates and keeps it. The
+/// lookup happens when the step runs (earlier steps of the same program may have created it).
+struct HeldSend {
+    sh: Arc<CShared>,
+    t: usize,
+    v: i64,
+    queued: bool,
+    inner: Option<Box<dyn EventHandler<CmdAgent> + Send + 'static>>,
+}
+
+fn send_through(c: Commander<CmdAgent>, v: i64, queued: bool) -> SendCommandById<i64> {
+    if queued {
+        c.send_queued(v)
+    } else {
+        c.send(v)
+    }
+}
+
+impl HandlerAction<CmdAgent> for HeldSend {
+    type Completion = ();
+
+    fn step(
+        &mut self,
+        action_context: &mut ActionContext<CmdAgent>,
+        meta: swimos_agent::AgentMetadata,
+        context: &CmdAgent,
+    ) -> StepResult<Self::Completion> {
+        if self.inner.is_none() {
+            let (t, v, queued) = (self.t, self.v, self.queued);
+            let existing = self.sh.held.lock().get(&t).copied();
+            let h: Box<dyn EventHandler<CmdAgent> + Send + 'static> = match existing {
+                Some(c) => Box::new(send_through(c, v, queued)),
+                None => {
+                    let (host, node, lane) = TARGETS[t];
+                    let hc: Ctx = HandlerContext::default();
+                    let sh = self.sh.clone();
+                    Box::new(hc.create_commander(host, node, lane).and_then(
+                        move |c: Commander<CmdAgent>| {
+                            sh.held.lock().insert(t, c);
+                            send_through(c, v, queued)
+                        },
+                    ))
+                }
+            };
+            self.inner = Some(h);
+        }
+        self.inner
+            .as_mut()
+            .expect("set above")
+            .step(action_context, meta, context)
     }
 }
 
 #[lifecycle(CmdAgent)]
 impl CmdLifecycle {
+    #[on_start]
+    fn on_start(&self, context: Ctx) -> impl EventHandler<CmdAgent> {
+        let steps: Vec<Box<dyn EventHandler<CmdAgent> + Send + 'static>> = self
+            .shared
+            .start_cmdrs
+            .iter()
+            .map(|(t, first)| {
+                let (t, first) = (*t, *first);
+                let (host, node, lane) = TARGETS[t];
+                let sh = self.shared.clone();
+                let h: Box<dyn EventHandler<CmdAgent> + Send + 'static> = Box::new(
+                    context.create_commander(host, node, lane).and_then(
+                        move |c: Commander<CmdAgent>| {
+                            sh.held.lock().insert(t, c);
+                            let send: Option<SendCommandById<i64>> = first.map(|v| {
+                                sh.rec(CEv::Sent { t, v, ow: false });
+                                c.send_queued(v)
+                            });
+                            HandlerActionExt::<CmdAgent>::discard(send)
+                        },
+                    ),
+                );
+                h
+            })
+            .collect();
+        Sequentially::new(steps)
+    }
+
     #[on_command(ctl)]
     fn on_ctl(&self, context: Ctx, value: &i32) -> impl EventHandler<CmdAgent> {
         let sh = self.shared.clone();
